@@ -343,7 +343,7 @@ def unbounded_spline_models(wj):
 
 def diagnose(wj, cmd, loc):
     """name the cause of a non-finite answer where it is a recorded one; otherwise the location class"""
-    if False and wj is not None and cmd.split()[0] in ("q3", "q2", "t3", "t2") and unbounded_spline_models(wj):     # such worlds are refused since upstream 548fef4d
+    if False and wj is not None and cmd.split()[0] in ("q3", "q2", "t3", "t2") and unbounded_spline_models(wj):     # such worlds are refused since upstream 7d5ade92
         w2 = copy.deepcopy(wj)
         for m in unbounded_spline_models(w2):
             m["max distance slab top"] = 200e3
